@@ -341,6 +341,10 @@ func (c *Context) BindValidRequest(request *http.Request, route *MatchedRoute, b
 			if len(res) == 0 {
 				cons, ok := route.Consumers[ct]
 				if !ok {
+					// admitted through a wildcard entry: the route's table only knows the literal entries
+					cons, ok = c.api.ConsumersFor([]string{ct})[ct]
+				}
+				if !ok {
 					res = append(res, errors.New(http.StatusInternalServerError, "no consumer registered for %s", ct))
 				} else {
 					route.Consumer = cons
